@@ -189,6 +189,9 @@ func init() {
 					if tier != "thorough" {
 						spec.Shallow = []int{2}
 					}
+					if len(jobs) == 1 {
+						spec.CrossChk = &explore.Budget{K: 2}
+					}
 					jobs = append(jobs, ExploreJob("C15", spec, 10*(h.fg+h.bg)))
 				}
 			}
